@@ -22,7 +22,7 @@ Proof. exact add_variable_shadows. Qed.
 Print Assumptions C03_definition_shadows.
 
 Theorem C03_unbound_fails :
-  forall fuel sc x rest, variables x sc = None -> (match x with "@"%char :: "@"%char :: _ => False | _ => True end) ->
+  forall fuel sc x rest, variables x sc = None -> (match x with "@"%char :: "@"%char :: _ => False | _ => True end) -> is_interp x = false ->
     eval_value (S fuel) sc (VVar x :: rest) = RError $"SyntaxError" ($"Unknown variable " ++ x).
 Proof. exact unbound_is_error. Qed.
 Print Assumptions C03_unbound_fails.
